@@ -180,7 +180,8 @@ class GuardedDestructure(Rule):
 
 class Loop:
     def __init__(self, invariants=(), decreases=None, iter_name=None, desugar_range_for=False, attrs=None, continue_hint=None,
-                 except_break=(), ensures=(), optional=False):
+                 except_break=(), ensures=(), optional=False, desugar_while_let=False):
+        self.desugar_while_let = desugar_while_let
         self.invariants, self.decreases, self.iter_name = list(invariants), decreases, iter_name
         self.desugar_range_for, self.attrs = desugar_range_for, attrs
         self.continue_hint = continue_hint
@@ -235,6 +236,37 @@ class ClosureFn(Fn):
         return segs + "::{closure:" + self.cname + "}"
 
 
+class BlockFn(Fn):
+    """A block `{ .. }` that is not a fn item (the body of a `thread::spawn(move || { .. })` closure, the body of a
+    trait method whose signature is outside the dialect), verified as the body of a function: the text between the
+    braces is copied verbatim and goes through the same edits as a fn body (contracts, loop invariants, hints,
+    rules); the signature is supplied by the unit.  `anchor` is a regex over the masked file text that must END at
+    the opening brace; `which` selects the n-th match."""
+    def __init__(self, file, anchor, name, sig, which=0, scope=None, **kw):
+        Fn.__init__(self, file, list(scope or []) + [name], **kw)
+        self.anchor, self.bname, self.sig, self.which = anchor, name, sig, which
+        self.block = True
+
+    @property
+    def qual(self):
+        return "::".join(Fn(self.file, self.path[:-1]).qual.split("::") + ["{block:" + self.bname + "}"]) if len(self.path) > 1 else "{block:" + self.bname + "}"
+
+
+class _BlockItem:
+    def __init__(self, src, name, body_open, body_close):
+        self.src, self.name = src, name
+        self.attr_start = self.fn_kw = self.sig_start = self.params_open = self.params_close = body_open
+        self.body_open, self.body_close = body_open, body_close
+
+    @property
+    def line(self):
+        return self.src.count("\n", 0, self.body_open) + 1
+
+    @property
+    def end_line(self):
+        return self.src.count("\n", 0, self.body_close) + 1
+
+
 class Edit:
     def __init__(self, start, end, text, kind, ref=None):
         self.start, self.end, self.text, self.kind, self.ref = start, end, text, kind, ref
@@ -278,14 +310,26 @@ def build_fn(repo, spec, src_cache, base_indent="    "):
     src, m = src_cache[path]
     if getattr(spec, "closure", False):
         return _build_closure(spec, src, m)
-    try:
-        item = rs.find_fn(src, spec.path, m)
-    except rs.ScanError as e:
-        raise GenError("anchor lost: %s" % e)
+    prefix = ""
+    if getattr(spec, "block", False):
+        found = [x for x in re.compile(spec.anchor, re.S).finditer(m) if m[x.end() - 1] == "{"]
+        if spec.which >= len(found):
+            raise GenError("anchor lost: block %s (%s) in %s" % (spec.bname, spec.anchor, spec.file))
+        bo = found[spec.which].end() - 1
+        item = _BlockItem(src, spec.bname, bo, rs.match_close(m, bo))
+        sig = re.sub(r"fn\s+[A-Za-z_0-9]+", "fn " + spec.rename, spec.sig, 1) if spec.rename else spec.sig
+        prefix = ((spec.attrs + "\n    ") if spec.attrs else "") + sig
+    else:
+        try:
+            item = rs.find_fn(src, spec.path, m)
+        except rs.ScanError as e:
+            raise GenError("anchor lost: %s" % e)
     edits = []
     rule_counts = {}
     clauses = []
     _fn_edits(spec, item, src, m, edits, rule_counts, clauses, top=True)
+    if prefix:
+        edits = [e for e in edits if not (e.kind == "sig" and e.ref == "attrs")]
     # apply
     edits.sort(key=lambda e: (e.start, e.end))
     for a, b in zip(edits, edits[1:]):
@@ -334,6 +378,9 @@ def build_fn(repo, spec, src_cache, base_indent="    "):
         if mm:
             base = line_origin[i] or {}
             line_origin[i] = {"kind": mm.group(1), "ref": mm.group(2), "file": spec.file, "line": base.get("line")}
+    if prefix:
+        text = prefix + text
+        line_origin = [{"kind": "sig", "ref": "block-signature", "file": spec.file, "line": item.line}] * prefix.count("\n") + line_origin
     ex.text = text
     ex.origins = line_origin
     ex.fn = spec
@@ -545,7 +592,7 @@ def _fn_edits(spec, item, src, m, edits, rule_counts, clauses, top):
         return any(a <= o <= b for a, b in skip)
 
     # --- signature
-    if spec.rename:
+    if spec.rename and not getattr(spec, "block", False):
         nm = re.compile(r"fn\s+(%s)\b" % re.escape(item.name)).match(m, item.fn_kw)
         edits.append(Edit(nm.start(1), nm.end(1), spec.rename, "sig", "rename"))
     if spec.extra_params:
@@ -621,6 +668,13 @@ def _fn_edits(spec, item, src, m, edits, rule_counts, clauses, top):
                     ch = "\n" + _hint_text(lp.continue_hint, cind + "    ") + cind + "    "
                 edits.append(Edit(co, bo + cm.end(), "{%s %s += 1; continue; }" % (ch, var), "rule", "D9"))
             edits.append(Edit(bc, bc, "    %s += 1;\n%s" % (var, lind), "rule", "D9"))
+        elif lp.desugar_while_let and re.compile(r"while\s+(?=let\b)").match(m, o):
+            # D27: `while let PAT = EXPR { BODY }` -> `loop { let PAT = EXPR else { break; }; BODY }` (the definition of while-let);
+            # lets ghost code name the state before EXPR is evaluated (hint anchor loop:N:head)
+            wm = re.compile(r"while\s+(?=let\b)").match(m, o)
+            edits.append(Edit(o, wm.end(), "loop\n%s%s{ /* D27 */\n%s    " % (inv, lind, lind), "rule", "D27"))
+            edits.append(Edit(bo, bo + 1, "else { break; };", "rule", "D27"))
+            rule_counts["D27"] = rule_counts.get("D27", 0) + 1
         else:
             if lp.iter_name:
                 if kw != "for":
@@ -672,7 +726,13 @@ def _fn_edits(spec, item, src, m, edits, rule_counts, clauses, top):
                 raise GenError("anchor lost: %s in %s" % (a, spec.qual))
             o, kw, bo, bc = loops[n]
             lind = _indent_at(src, o)
-            if where_ == "before":
+            if where_ == "head":
+                wm = re.compile(r"while\s+(?=let\b)").match(m, o)
+                if wm and n in spec.loops and spec.loops[n].desugar_while_let:
+                    places = [(wm.end(), body_of(lind + "    ").lstrip() + lind + "    ")]
+                else:       # not (or no longer) a while-let: the head of the body is its start
+                    places = [ins_after(bo + 1, body_of, lind + "    ")]
+            elif where_ == "before":
                 places = [ins_line_before(o, body_of)]
             elif where_ == "start":
                 places = [ins_after(bo + 1, body_of, lind + "    ")]
